@@ -60,6 +60,8 @@ class Report:
         self.harness_errors = []
         self.crash_reproduces = False  # a compiled accessor dying on a signal counts as reproduced
         self.max_replays = 8
+        self.smt_queries = []
+        self.smt_cap = 48
 
     # ---- collecting -----------------------------------------------------
     def add_engine_result(self, res, expect_reach=("end",)):
@@ -74,6 +76,9 @@ class Report:
         for n in res.get("notes", ()):
             if len(self.notes) < 30:
                 self.notes.append(f"{res.get('name','')}: {n}")
+        for q in res.get("smt", ()):
+            if len(self.smt_queries) < self.smt_cap:
+                self.smt_queries.append(q)
         self.configs.append(res.get("name", ""))
         for tag in expect_reach or ():
             if res.get("reach", {}).get(tag, 0) == 0:
@@ -153,6 +158,8 @@ class Report:
                 lines.append(f"  what: {desc}")
         if skipped:
             lines.append(f"  ... {skipped} further counterexample signature(s) not replayed (cap {self.max_replays}); see evidence counterexamples")
+        if self.smt_queries:
+            self.extra["second_solver"] = cross_check(self.smt_queries, self.harness_errors)
         for msg in self.reach_missing:
             self.harness_errors.append(f"vacuous harness (reachability witness missing): {msg}")
         wall = time.time() - self.t0
@@ -227,13 +234,64 @@ class Report:
         return EXIT_OK
 
 
-def run_parallel(fn, configs, workers=None):
-    """map fn over configs in forked workers (each builds its own z3 state)"""
+def cross_check(queries, errors, tlimit=20):
+    """a sample of queries the primary solver (z3-solver 5.x wheel) answered `unsat` is re-run, as SMT-LIB2, on
+    the system z3 (4.8.12) and cvc5 binaries; a `sat` answer from either is a harness error, time-outs and
+    `unknown` are recorded"""
+    import tempfile
+
+    out = {"queries": len(queries), "z3_4.8.12": {"unsat": 0, "sat": 0, "other": 0}, "cvc5": {"unsat": 0, "sat": 0, "other": 0}}
+    d = tempfile.mkdtemp(prefix="vx_smt_")
+    try:
+        for k, q in enumerate(queries):
+            f = os.path.join(d, f"q{k}.smt2")
+            with open(f, "w") as fh:
+                fh.write(q if "(check-sat)" in q else q + "\n(check-sat)\n")
+            for name, cmd in (("z3_4.8.12", ["/usr/bin/z3", f"-T:{tlimit}", f]), ("cvc5", ["cvc5", f"--tlimit={tlimit * 1000}", f])):
+                try:
+                    p = subprocess.run(cmd, capture_output=True, text=True, timeout=tlimit + 10)
+                    ans = (p.stdout.strip().splitlines() or ["?"])[0].strip()
+                    if "(error" in p.stdout:
+                        ans = "error"
+                except Exception:
+                    ans = "timeout"
+                key = ans if ans in ("unsat", "sat") else "other"
+                out[name][key] += 1
+                if ans == "sat":
+                    errors.append(f"second solver {name} answers sat where the primary solver answered unsat (query {k})")
+    finally:
+        import shutil
+
+        shutil.rmtree(d, ignore_errors=True)
+    return out
+
+
+def run_parallel(fn, configs, workers=None, deadline_s=None, fallback=None):
+    """map fn over configs in forked workers (each builds its own z3 state).  A worker that dies or hangs must
+    not hang the check: results are collected with a deadline; a missing result is replaced by fallback(cfg)
+    (an inconclusive result) or raises"""
     import multiprocessing as mp
 
     workers = workers or min(16, os.cpu_count() or 4)
     if len(configs) <= 1 or workers <= 1:
         return [fn(c) for c in configs]
+    if deadline_s is None:
+        deadline_s = 900 if tier() == "quick" else 5400
     ctx = mp.get_context("fork")
-    with ctx.Pool(min(workers, len(configs))) as pool:
-        return pool.map(fn, configs, chunksize=1)
+    pool = ctx.Pool(min(workers, len(configs)))
+    t0 = time.time()
+    try:
+        handles = [pool.apply_async(fn, (c,)) for c in configs]
+        out = []
+        for c, h in zip(configs, handles):
+            left = max(1.0, deadline_s - (time.time() - t0))
+            try:
+                out.append(h.get(timeout=left))
+            except mp.TimeoutError:
+                if fallback is None:
+                    raise RuntimeError(f"job did not finish within {deadline_s} s: {str(c)[:200]}")
+                out.append(fallback(c))
+        return out
+    finally:
+        pool.terminate()
+        pool.join()
